@@ -11,7 +11,7 @@ from ..values import (Num, Const, Tup, Term, Obj, P, Val, Kw, arr_param, scalar_
 from ..model import AnalysisError
 from ..symeval import Evaluator, State, Frame
 from .. import api, callgraph
-from .common import same_extent, S, run as runf, need_num, show, REPO_RESULT_KIND, no_sau, SAU, inline_except, SCANS
+from .common import same, same_extent, S, run as runf, need_num, show, REPO_RESULT_KIND, no_sau, SAU, inline_except, SCANS
 
 MATCH = 'traffic_weaver.match.'
 KERNEL = MATCH + '_integral_matching_stretch'
@@ -267,6 +267,39 @@ def _arr(v):
     return v
 
 
+def kernel_core(ctx):
+    """(qualname, {kernel parameter: core parameter}) when the stretch kernel with s=None and x given returns, unchanged, the result of one call
+    core(x, y, integral_value, integral_method, alpha) of a repository function: the kernel rules (C01.1-C01.3, decided on the kernel with the core inlined)
+    then speak about that core as well.  None otherwise."""
+    kfi = ctx.prog.func(KERNEL)
+    Lk = sym.sym('Lk')
+    kx, ky = arr_param('kx', length=Lk), arr_param('ky', length=Lk)
+    vals = {'x': kx, 'y': ky, 'integral_value': S('kP'), 'integral_method': Term('param', (Const('kmethod'),), kind='str'), 'alpha': S('kalpha')}
+    args = dict(vals)
+    args['s'] = Const(None)
+    if any(p_ not in kfi.params() for p_ in args):
+        return None
+    for p_ in kfi.params():
+        if p_ not in args:
+            args[p_] = Term('param', (Const('k:' + p_),))
+    kev = Evaluator(ctx.prog, inline=lambda f: False, opaque_kind=REPO_RESULT_KIND)
+    try:
+        kres, _ = kev.run_function(kfi, args=args)
+    except AnalysisError:
+        return None
+    calls = [e for e in kev.events if e.kind == 'call' and e.data['callee'] is not None]
+    if kev.issues or len(calls) != 1 or not veq(_arr(kres), calls[0].data['term']):
+        return None
+    b = calls[0].data['bound']
+    pmap = {}
+    for kp, kv in vals.items():
+        hit = [cp for cp, cv in b.items() if (same(cv, kv) if isinstance(kv, Num) and kv.length is not None else veq(cv, kv))]
+        if len(hit) != 1:
+            return None
+        pmap[kp] = hit[0]
+    return calls[0].data['callee'].qualname, pmap
+
+
 def check_interval_loop(ctx):
     fi = ctx.prog.func(INTERVAL)
     L = sym.sym('L')
@@ -287,6 +320,20 @@ def check_interval_loop(ctx):
     stores = [e for e in ev.events if e.kind == 'store']
     ctx.floor('C01.4', len(stores), 1, 'in-place stores in the interval loop')
     kcalls = [e for e in ev.events if e.kind == 'call' and e.data['callee'] is not None and e.data['callee'].qualname == KERNEL]
+    if not kcalls:
+        # the loop may call the array-level core of the kernel directly, when the kernel itself is a thin wrapper around that core
+        core = kernel_core(ctx)
+        if core is not None:
+            qn, pmap = core
+            ev = Evaluator(ctx.prog, inline=inline_except(*(tuple(PUBLIC_ANCHORS) + (qn,))), opaque_kind=REPO_RESULT_KIND)
+            res, st = ev.run_function(fi, args=args)
+            if ev.issues:
+                raise AnalysisError(f"C01.4: {fi.qualname} not canonicalisable: {ev.issues[:3]}")
+            stores = [e for e in ev.events if e.kind == 'store']
+            for e in ev.events:
+                if e.kind == 'call' and e.data['callee'] is not None and e.data['callee'].qualname == qn:
+                    e.data['bound'] = {kp: e.data['bound'].get(cp) for kp, cp in pmap.items()}
+                    kcalls.append(e)
     ctx.floor('C01.4', len(kcalls), 1, 'kernel calls in the interval loop')
     for e in stores:
         inst = f"store at {e.loc()}"
